@@ -51,7 +51,7 @@ var (
 
 func keyPairs() []learn.KeyPair {
 	keyOnce.Do(func() {
-		for _, bits := range []int{1024, 1024, 2048} {
+		for _, bits := range []int{1024, 1024, 2048, 1028, 1030, 2044} { // also moduli whose bit length is not a multiple of 8
 			kp, err := learn.Keygen(bits)
 			if err != nil {
 				panic(err)
